@@ -36,13 +36,13 @@ func (t *Term) IsTrue() bool  { return t.op == "true" }
 func (t *Term) IsFalse() bool { return t.op == "false" }
 
 type termCtx struct {
-	tab    map[string]*Term
-	nextID int
-	vars   []*Term // declaration order
-	varset map[string]*Term
-	ufs    map[string]string      // uf name -> declaration
-	bounds map[string][2]*big.Int // facts learned from the path condition: var -> [lo,hi] (nil = unbounded)
-	tbounds map[int][2]*big.Int   // same for arbitrary terms (by id)
+	tab     map[string]*Term
+	nextID  int
+	vars    []*Term // declaration order
+	varset  map[string]*Term
+	ufs     map[string]string      // uf name -> declaration
+	bounds  map[string][2]*big.Int // facts learned from the path condition: var -> [lo,hi] (nil = unbounded)
+	tbounds map[int][2]*big.Int    // same for arbitrary terms (by id)
 	epoch   int
 	rcache  map[int]rangeEntry
 }
